@@ -148,7 +148,22 @@ func main() {
 		patterns = append(patterns, "./"+p)
 	}
 	sort.Strings(patterns)
-	cfg := &packages.Config{Mode: packages.LoadAllSyntax, Dir: *repo, BuildFlags: []string{"-tags=verif"}}
+	cfg := &packages.Config{Mode: packages.LoadAllSyntax, Dir: *repo, BuildFlags: []string{"-tags=verif"}, Overlay: map[string][]byte{}}
+	// Go-written models of external functions: injected into a repository package as an overlay file (nothing is written to /repo)
+	if ms, _ := filepath.Glob(filepath.Join(*verif, "contracts", "models", "*.go")); len(ms) > 0 {
+		for _, m := range ms {
+			b, err := os.ReadFile(m)
+			if err != nil {
+				continue
+			}
+			first := strings.SplitN(string(b), "\n", 2)[0]
+			if !strings.HasPrefix(first, "// overlay: ") {
+				fmt.Fprintln(os.Stderr, "model file without overlay header:", m)
+				os.Exit(2)
+			}
+			cfg.Overlay[filepath.Join(*repo, strings.TrimSpace(strings.TrimPrefix(first, "// overlay: ")))] = b
+		}
+	}
 	pkgs, err := packages.Load(cfg, patterns...)
 	if err != nil {
 		fmt.Fprintln(os.Stderr, "load error:", err)
@@ -276,6 +291,9 @@ func (e *Engine) scanGlobals() {
 	}
 }
 
+var axiomText = map[string]string{}
+var axiomSkipped = map[string]bool{}
+
 func (e *Engine) loadAxioms() {
 	for _, a := range e.cs.Axioms {
 		st := e.newState(map[string]bool{})
@@ -288,13 +306,27 @@ func (e *Engine) loadAxioms() {
 		func() {
 			defer func() {
 				if r := recover(); r != nil {
+					axiomSkipped[a.Name] = true
 					if e.verbose {
 						fmt.Fprintf(os.Stderr, "axiom %s skipped (its package is not loaded in this run): %v\n", a.Name, r)
 					}
 				}
 			}()
 			t := e.evalBool(env, a.C)
-			e.d.axiom(t)
+			// an axiom is only relevant to a query that mentions one of the uninterpreted spec functions it constrains
+			var keys []string
+			for n, sf := range e.cs.Specs {
+				if sf.Body == nil && strings.Contains(t, "("+n+" ") {
+					keys = append(keys, n)
+				}
+			}
+			if len(keys) > 0 {
+				sort.Strings(keys)
+				e.d.axiomKeyed(t, keys...)
+				axiomText[a.Name] = t
+			} else {
+				e.d.axiom(t)
+			}
 		}()
 	}
 }
@@ -524,6 +556,12 @@ func report(e *Engine, prop, tier string, seed int, verif string, results []*Fun
 		}
 	}
 	for _, a := range e.cs.Axioms {
+		if t, keyed := axiomText[a.Name]; keyed && !usedKeyed[t] {
+			continue // constrains only spec functions that occur in no query of this run
+		}
+		if _, loaded := axiomText[a.Name]; !loaded && axiomSkipped[a.Name] {
+			continue
+		}
 		trusted = append(trusted, "axiom "+a.Name+": "+a.C.Text)
 	}
 	for _, n := range sortedKeys(notes) {
